@@ -23,16 +23,19 @@ fn check() -> Check {
         "exploration",
         "A pristine SST / write-ahead log / manifest is produced by the real writers from generated contents and builder options, \
          every byte is tagged with its region by an independent walker, and 1-3 damages {bit flip, byte overwrite, truncation, appended random / zero / \
-         same-file-slice suffix} are drawn per REGION CLASS (so the few bytes of the final block, trailer, headers and separators are hit as often as the data); \
+         same-file-slice suffix, overwritten RUN of 2-64 consecutive bytes (zeros, 0xff, random, or a copy of another region of the same file at an offset congruent modulo 4096 / 512 / 64 / 8 / 1)} are drawn per REGION CLASS (so the few bytes of the final block, trailer, headers and separators are hit as often as the data); \
          each damage plan is one evaluation. A case is non-trivial when the damaged file differs from the pristine one and the pristine file had \
-         >= 2 data blocks (SST) / >= 2 batches (log) / >= 2 edits (manifest). *-every-offset: for a few generated files (the same in every worker) EVERY single-bit flip, EVERY truncation length and the overwrites 0x00/0xff at EVERY offset are enumerated (label every-offset-of-this-file-enumerated), the offsets being divided among the workers. fuzz-corpus-replay: every file under /verif/fuzz/seeds/<target>/ is run through \
+         >= 2 data blocks (SST) / >= 2 batches (log) / >= 2 edits (manifest). Readers observed on every damaged file: SST - Sst::new, forward walk, backward walk, load of every key / version / a few absent keys, metadata, fast_setsum and three generated cursor programs per file (first call absolute, then up to 14 of next / prev / seek to a key or a byte-order neighbour of a key / seek_to_first / seek_to_last; every call returns Err - the cursor is dropped then - or leaves the cursor exactly where a reference cursor over the pristine entries is); log - LogIterator drain, log_to_setsum, log_to_builder into a call-recording builder and (logs below 256 KiB whose drain ends cleanly) into a real SstBuilder whose sealed table is walked, truncate_final_partial_frame; manifest - ManifestIterator, Manifest::verify over the directory, Manifest::open. manifest-backup-damage: manifests that have rolled over (explicit rollover() calls and the writer's own), the directory holding MANIFEST.1..n and MANIFEST; ONE fragment is damaged (a backup in 80 % of the files, the live file beside pristine backups otherwise) and ManifestIterator over that fragment, Manifest::verify over the directory and Manifest::open are observed; non-trivial = the fragment changed and held >= 2 edits. *-every-offset: for a few generated files (the same in every worker) EVERY single-bit flip, EVERY truncation length and the overwrites 0x00/0xff and the runs 64 x 0x00 / 5 x 0xff at EVERY offset are enumerated (label every-offset-of-this-file-enumerated), the offsets being divided among the workers. fuzz-corpus-replay: every file under /verif/fuzz/seeds/<target>/ is run through \
          the reference-free oracle of the libFuzzer targets; non-trivial = non-empty input.",
     )
-    .assume("Damage is 1-3 of: single bit flip, single byte overwrite, truncation to a length, appended suffix (random bytes, zeros, or a slice of the same pristine file). A suffix that is itself well-formed content is outside 'damage': an appended slice that happens to consist of whole CRC-valid log frames / manifest lines of the same file replays them and no per-record checksum can tell; such outcomes are accepted only when the plan contains an appended same-file slice AND every extra batch / line is a whole pristine one (label outcome:replayed-*).")
+    .assume("Damage is 1-3 of: single bit flip, single byte overwrite, truncation to a length, appended suffix (random bytes, zeros, or a slice of the same pristine file), overwritten run of 2-64 bytes. A copied run that is itself a whole CRC-valid log frame / whole manifest lines of the same file and lands on a frame / line boundary is well-formed content exactly like an appended slice: accepted only when the plan contains a copied run AND every foreign batch / line item is a whole pristine one (label outcome:replayed-*(copied-run-*)). A suffix that is itself well-formed content is outside 'damage': an appended slice that happens to consist of whole CRC-valid log frames / manifest lines of the same file replays them and no per-record checksum can tell; such outcomes are accepted only when the plan contains an appended same-file slice AND every extra batch / line is a whole pristine one (label outcome:replayed-*).")
     .assume("A truncation that removes whole trailing batches / transactions (or leaves a torn final one) yields a genuine prefix without an error; that is the documented torn-tail behaviour and is accepted only when the plan contains a truncation. Without a truncation a clean end before the last pristine entry is a failure (silently-short).")
     .assume("metadata().file_size is compared only when the plan neither truncates nor appends: it is the length of the file, not of its data.")
     .assume("Allocation oracle: the largest single allocation request made while the damaged file is read is recorded by a counting global allocator. A request is suspicious only if it exceeds BOTH 64 MiB and 16 x the damaged file's size (64 MiB is far above every legitimate buffer: the readers' 2 MiB BufReader, the 1 MiB log block, and blocks/filters bounded by the file size; the 16x factor keeps large pristine files out). The log reader trusts a frame's size field up to the documented constant TABLE_FULL_SIZE (two frames of a split batch share one buffer), so requests up to 2 x TABLE_FULL_SIZE are bounded by a documented constant: they are counted by a label (the property speaks of unbounded allocations; a 960 MiB zero-filled buffer for a 226-byte log is an observation recorded in DESIGN.md, not a violation) and only requests above that bound fail. Requests above 2 x TABLE_FULL_SIZE + 64 MiB are refused by the harness allocator (the process aborts and the parent attributes the abort to the running case).")
-    .assume("Known finding R-O: the SST final block carries no checksum; when a damage touches the bytes of its setsum / smallest_timestamp / biggest_timestamp fields (region tag computed from the pristine file by an independent protobuf walker) the comparison of metadata().{setsum,smallest_timestamp,biggest_timestamp} and fast_setsum() is excluded in non-strict mode and counted; entries, loads and first/last key stay asserted.")
+    .assume("Known finding R-O: the SST final block carries no checksum; when a damage touches the bytes of its setsum / smallest_timestamp / biggest_timestamp fields (region tag computed from the pristine file by an independent protobuf walker) the comparison of metadata().{setsum,smallest_timestamp,biggest_timestamp} and fast_setsum() is excluded in non-strict mode and counted; entries, loads and first/last key stay asserted. An overwritten run counts as touching every region class it overwrote a byte of.")
+    .assume("log_to_builder reads the whole log before it feeds the builder: it must fail whenever the drain of the same bytes fails, and otherwise feed the builder exactly the drained entries in (key ascending, timestamp descending) order (stable). An SstBuilder refuses a log that holds the same (key, timestamp) twice or starts with (empty key, u64::MAX): that refusal (predicted from the drained entries by the harness) is the builder's, not damage, and is only labelled.")
+    .assume("truncate_final_partial_frame is a probe for one corruption shape, not a verifier: None and Err are always acceptable on a damaged file. Some(off) is judged against d = the first byte at which the damaged file differs from the pristine one (for a truncation: the cut) and b0 = the last pristine batch boundary <= d: off >= b0 (no batch that lies entirely before the damage is cut away), off <= d implies off == b0 (inside the undamaged prefix the offset is a pristine batch boundary; for a pure truncation it is therefore THE last batch boundary at or before the cut), off <= file length. Beyond d nothing is demanded because frame headers carry no checksum (a damaged discriminant makes the walker accept or skip CRC-valid frames). On an unchanged file the answer must be the pristine one (None).")
+    .assume("Manifest::verify reads every fragment with the reader ManifestIterator uses: it must report >= 1 error whenever the iteration of the damaged fragment fails and nothing when the damaged fragment still iterates to the pristine edits; when the fragment iterates cleanly to a genuine prefix (truncation) or to replayed lines, a reported roll-over mismatch and silence are both acceptable. Manifest::open reads the live file and only the NAMES of the backups: after damage to a backup it must succeed with exactly the pristine state and size.")
     .assume("Manifest info keys are printable ASCII characters (Edit and Manifest expose no iterator over info fields; the harness probes those keys and cross-checks Manifest::size()). Manifest::open rewrites the file, so every observation works on a fresh copy.")
     .assume("SST tables are non-empty (an empty builder is C10's business).")
     .part(engine::DamagePart(sstpart::SstDamage))
